@@ -447,6 +447,27 @@ func runC18(p *Prog, r *Report) {
 							// best effort: nil allowed under a guard mentioning closedQ/bestEffort
 							gs := strings.Join(p.GuardStrings(ret), " ")
 							if mn == "SendMsg" && last == "nil" && (strings.Contains(gs, "closedQ") || strings.Contains(strings.ToLower(gs), "besteffort")) {
+								// ... and the mode tested here is the reading that chose the timer
+								// source (one value, branched on before the wait as well), not a
+								// second look at an option that may have been changed meanwhile
+								same := strings.Contains(gs, "closedQ")
+								for _, a := range p.GuardsOf(ret.Block()) {
+									if !strings.Contains(strings.ToLower(NormAtom(a.Cond, a.Pol)), "besteffort") {
+										continue
+									}
+									if refs := a.Cond.Referrers(); refs != nil {
+										for _, u := range *refs {
+											if iff, isIf := u.(*ssa.If); isIf && iff.Block() != nil && iff.Block().Dominates(sel.Block()) {
+												same = true
+											}
+										}
+									}
+								}
+								if same {
+									continue
+								}
+								okArm = false
+								badArm = fmt.Sprintf("returns nil at %s under a second reading of the best-effort option: when the option is switched on while the call is blocked on its deadline, the call drops the message and reports success instead of returning %s", p.InstrPos(ret), terr)
 								continue
 							}
 							okArm = false
